@@ -282,11 +282,33 @@ def replay_known(ctx):
             x = cr.CobaRandom(r["seed"]).random(mn, mx)
             if not (mn <= x < mx): ctx.known_hit.setdefault(k["key"], k["what"])
 
+def cross_process(ctx):
+    """the stream is a function of the seed 'in whatever process it runs': same calls in child interpreters with other hash salts"""
+    seeds = ["abc", "", "seed-7", "\u00e9\u00e8", 3.21, 0.5, 17, -5, 2**70, 4.0]
+    prog = ("import sys,json,warnings; warnings.filterwarnings('ignore'); sys.path.insert(0,%r)\n"
+            "from coba.random import CobaRandom\n"
+            "out=[]\n"
+            "for s in %r:\n"
+            "    r=CobaRandom(s); out.append([r.randint(0,10**6), r.random().hex(), r.shuffle(list(range(6))), r.choice(list(range(5)),[1,0,2,0,1])])\n"
+            "print(json.dumps(out))\n") % (REPO, seeds)
+    outs = []
+    for hs in ["0", "1", "12345", "random"]:
+        env = dict(os.environ, PYTHONHASHSEED=hs)
+        p = subprocess.run([PY, "-W", "ignore", "-c", prog], capture_output=True, text=True, env=env, timeout=120)
+        if p.returncode != 0:
+            ctx.disagree("C05.cross_process", "child failed", p.stderr[-400:], None); return
+        outs.append(json.loads(p.stdout.strip().split("\n")[-1]))
+        ctx.count("cross-process", hs)
+    for i, s in enumerate(seeds):
+        if any(o[i] != outs[0][i] for o in outs):
+            ctx.fail(["process-dependent", type(s).__name__], "CobaRandom(%r) gives different streams in different interpreter processes (PYTHONHASHSEED 0/1/12345/random): %s" % (s, [o[i][0] for o in outs]), dict(seed=repr(s)))
+
 def run(ctx):
     os.makedirs(os.path.join(VERIF, ".work"), exist_ok=True)
     check_cases(ctx, targeted_cases(), "targeted")
     check_cases(ctx, [gen_case(ctx.rng) for _ in range(ctx.n(400, 6000))], "random-seq")
     float_cases(ctx, ctx.n(300, 3000))
+    cross_process(ctx)
     replay_known(ctx)
 
 def replay(r):
